@@ -1,6 +1,7 @@
 import Nstd.Str.LemmasStep
 import Nstd.Str.LemmasTotal2
 import Nstd.Str.LemmasView
+import Nstd.Str.LemmasAlias
 /-!
   Property C06 — String is an independent byte-string value matching a reference model.
 
@@ -12,6 +13,7 @@ import Nstd.Str.LemmasView
   foreign regions and every history.
 -/
 namespace Nstd.Str
+open Spec (splitRef splitOut)
 
 /-- the states reachable from the initial state by any history of API calls -/
 def Reach (n : Nat) (regs : Nat → List Nat) (s : St) : Prop := ∃ ops, run (init n regs) ops = some s
@@ -366,6 +368,57 @@ theorem findFrom_spec {n : Nat} {regs : Nat → List Nat} {s : St} (r : Reach n 
   intro s' res e
   obtain ⟨S, hr⟩ := findCFrom_eq g V.1 hc hz e
   exact ⟨hr, S.abs⟩
+
+/-! ### the token list, String operands built from (ptr, len) -/
+
+/-- **Refinement of the extended operations**: histories that also use `split(tokens, …)` / `join(tokens, …)`
+    over one token list and `append/prepend(String(ptr, len))` end — if the model runs them and the
+    specification accepts them — in the specified variables *and* the specified token list; the heap
+    invariant holds and foreign memory is unchanged throughout. -/
+theorem xrefines (n : Nat) (regs : Nat → List Nat) (ops : List XOp) (x : XSt)
+    (e : xrun { st := init n regs, toks := [] } ops = some x) :
+    Good x.st ∧ x.st.regs = regs ∧
+    ∀ X, Spec.xrun regs { σ := fun _ => [], toks := [] } ops = some X → X.σ = absVar x.st ∧ X.toks = x.toks := by
+  obtain ⟨g, r, sp⟩ := xrun_ok (x := { st := init n regs, toks := [] }) (good_init n regs) e
+  refine ⟨g, r, ?_⟩
+  intro X hX
+  have h0 : xabs { st := init n regs, toks := [] } = { σ := fun _ => [], toks := [] } := by
+    simp only [xabs]; congr 1
+  have := sp X (by rw [h0]; exact hX)
+  subst this
+  exact ⟨rfl, rfl⟩
+
+/-! ### pointer arguments into the string's own storage
+
+    String.hpp documents nothing about passing `(const char*)s + off` back into a mutating call of `s`.  All
+    theorems above take the chars of `(ptr, len)` / `const char*` arguments *by value*: the **precondition** is
+    that such a pointer does not point into the storage of the String the call modifies.  The three theorems
+    below say what happens without it. -/
+
+/-- `s.prepend((const char*)s + off, len)` is nevertheless safe and gives the expected value: the local
+    `String copy(*this)` keeps the old storage alive while it is read -/
+theorem prepend_alias_safe {n : Nat} {regs : Nat → List Nat} {s s' : St} (r : Reach n regs s) {v off len : Nat}
+    (hv : validVar s v = true) (e : prependAlias s v off len (userVars s) = some s') :
+    Eff s s' v (((absVar s v).drop off).take len ++ absVar s v) := by
+  have g := reach_good r
+  have V := valid_facts hv
+  exact eff_prependAlias g.inv V.1 V.2.2.2.2.1 V.2.1 (g.temps _ (Nat.le_refl _)) e
+
+/-- `s.append((const char*)s + off, len)` is safe when nothing is reallocated: `s` owns its block exclusively
+    and the capacity suffices (e.g. after `reserve`) -/
+theorem append_alias_reserved {n : Nat} {regs : Nat → List Nat} {s : St} (r : Reach n regs s) {v off len L C : Nat}
+    (hv : validVar s v = true) (X : Excl s v L C) (hol : off + len ≤ L) (hC : L + len ≤ C) :
+    ∃ s', appendAlias s v off len = some s' ∧ Eff s s' v (absVar s v ++ ((absVar s v).drop off).take len) :=
+  eff_appendAlias_reserved (reach_good r).inv (valid_facts hv).1 X hol hC
+
+/-- … and it is a use-after-free otherwise: `String s("abcd", 4); s.append((const char*)s, 4)` reallocates,
+    deletes the block and then copies from it (fault of the model; heap-use-after-free of the real code) —
+    while the same call after `s.reserve(8)` is fine.  The precondition cannot be dropped. -/
+theorem alias_append_faults :
+    ((run (init 7 (fun _ => [])) [.ctorPtr 0 [97, 98, 99, 100]]).bind (fun s => appendAlias s 0 0 4)).isSome = false ∧
+    ((run (init 7 (fun _ => [])) [.ctorPtr 0 [97, 98, 99, 100], .reserve 0 8]).bind
+      (fun s => appendAlias s 0 0 4)).isSome = true := by
+  decide
 
 /-! ### non-vacuity: a concrete history with literal and unterminated attached memory, lazy copies,
     self arguments, temporaries and C-string based calls meets every hypothesis used above -/
